@@ -348,7 +348,7 @@ def ok (s : State) (c : Option Conn) : State × String :=
 
 /-- operations (see harness/cmd/onetharness/c15.go):
 `open c m`, `csend c m`, `wstart c n`, `emit c k v`, `svcclose c k`, `cread c`, `cleave c close|drop`,
-`wstop c k`, `hold c p`, `release c p`, `wheld c p`, `flood c k v n`, `wexit c n`, `alive` -/
+`wstop c k`, `hold c p`, `release c p`, `wheld c p`, `flood c k v n`, `wexit c n`, `gc`, `alive` -/
 def step (s : State) (toks : List String) : State × String :=
   match toks with
   | ["open", n, m] =>
@@ -422,6 +422,7 @@ def step (s : State) (toks : List String) : State × String :=
         else false
       (s, if held c p && at_ then "ok" else "timeout")
     | none => (s, "bad-op")
+  | ["gc"] => (s, "ok")     -- a garbage collection in the server process: channels are told apart by identity
   | ["alive"] => (s, "ok")
   | _ => (s, "bad-op")
 
